@@ -232,6 +232,12 @@ def run_case(cid, rng, workdir):
         bump(res, "blocks_with_two_direction_lines")
     elif mode == "dist":
         add_dist()
+        if rng.random() < 0.35:
+            # growth told to start (-start, name or index form) at one of the two restrained chain ends
+            k0 = rng.choice([1, nres])
+            kw["start"] = ["M-%s#%d" % (names[k0 - 1], k0)] if rng.random() < 0.6 else \
+                ["M#%d-%s#%d" % (lead, names[k0 - 1], k0)]
+            bump(res, "distance_restraints_with_start_at_an_end")
     elif mode == "dist2sp":
         # a short target for a long chain: the free end crowds the upper end of the window, where the step term matters
         add_dist(lo=0.5, hi=0.8)
@@ -255,7 +261,11 @@ def run_case(cid, rng, workdir):
         if rng.random() < 0.4:
             # growth that starts somewhere inside the ring (-start with molecule name and index)
             k0 = rng.randint(2, nres)
-            kw["start"] = ["M#%d-%s#%d" % (lead, names[k0 - 1], k0)]
+            if rng.random() < 0.5:
+                kw["start"] = ["M#%d-%s#%d" % (lead, names[k0 - 1], k0)]
+            else:
+                kw["start"] = ["M-%s#%d" % (names[k0 - 1], k0)]          # every ring of that name starts there
+                bump(res, "rings_started_inside_by_molecule_name")
             bump(res, "rings_started_inside")
     elif mode == "shell":
         # several restraints of one kind on the same residues: a spherical shell (inside the large, outside the small
@@ -274,7 +284,11 @@ def run_case(cid, rng, workdir):
         bump(res, "several_restraints_of_one_kind")
     elif mode == "pers":
         lp = rng.choice([0.3, 0.5, 1.0])      # stiffer chains are sampled near full extension, which the walk almost never reaches
-        bl.extend(["[ persistence_length ]", "WCM %s %d %d" % (lp, 0, nres - 1)])
+        if rng.random() < 0.3:
+            bl.extend(["[ persistence_length ]", "WCM %s %d %d" % (lp, nres - 1, 0)])      # the ends named last to first
+            bump(res, "persistence_blocks_named_last_to_first")
+        else:
+            bl.extend(["[ persistence_length ]", "WCM %s %d %d" % (lp, 0, nres - 1)])
         restr.append(("pers", 0, nres - 1, lp))
     else:
         add_geom()
